@@ -222,9 +222,10 @@ Proof.
     split; [apply ball_cells_spec; split; [exact Hu|rewrite (inside_within g c r u Hr0); exact Hwu]|].
     split; [apply ball_cells_spec; split; [exact Hv|rewrite (inside_within g c r v Hr0); exact Hwv]|].
     exact Hf.
-  - intros Hne. destruct (ball_cells g c r) as [|p ps] eqn:E; [congruence|].
-    assert (Hp : In p (ball_cells g c r)) by (rewrite E; left; reflexivity). rewrite <- E.
-    destruct (Hpath p Hp) as (Hr0 & Hw & H).
+  - intros Hne.
+    assert (Hex : exists p, In p (ball_cells g c r)).
+    { destruct (ball_cells g c r) as [|p ps]; [congruence|]. exists p. left. reflexivity. }
+    destruct Hex as [p Hp]. destruct (Hpath p Hp) as (Hr0 & Hw & H).
     apply (clos_invariant (wstep g c (r * r)) (fun u => within g c (r * r) u = true)) in H.
     + apply ball_cells_spec. split; [exact Hhub|]. rewrite (inside_within g c r _ Hr0). apply H. exact Hw.
     + intros u v (_ & _ & Hwu & Hwv & _). split; assumption.
